@@ -1,6 +1,7 @@
 package request
 
 import (
+	"encoding/base64"
 	"encoding/hex"
 	"fmt"
 	"strings"
@@ -39,6 +40,14 @@ func VerifC04Hash() {
 		}
 	} else {
 		sig, err = Sign(verifKey(id), method, id, nonce, arg, extra)
+		if err == nil && verifapi.Bool("compact-signature") {
+			// a node signature without the recovery byte: verification only needs R || S
+			if b, derr := base64.StdEncoding.DecodeString(sig); derr == nil && len(b) == 65 {
+				sig = base64.StdEncoding.EncodeToString(b[:64])
+			} else {
+				verifapi.Unreachable("c04.compact-form")
+			}
+		}
 	}
 	if err != nil {
 		verifapi.Unreachable("c04.sign-error")
